@@ -96,6 +96,14 @@ CLAIMED = {
             'injection precedence through the real _prepare_routes/_init_objects with symbolic values.',
             'floats as reals (round-half-even over reals); DNAs of 1-3 genes; int parameters with integer bounds',
             TECH),
+    'C18': ('DESIGN.md C18',
+            'Bounded solver-based check: the real DynamicNumpyArray with its module-global numpy replaced by a shape-level shim (length + '
+            'row function, numpy index/slice/out-of-range rules) so that every index, slice bound and batch length is a symbolic integer; '
+            'after every operation of every enumerated skeleton z3 proves equal length, equal row at a fresh symbolic probe index, equal '
+            'read results against a list model, and that list-valid operations do not raise.',
+            'bucket sizes {2,4} quick / {1,2,3,4,10} thorough; skeleton depth <= 3 (4) plus targeted families up to 12 operations; the shim is '
+            'validated against real numpy on random concrete histories each run and counterexamples are replayed on real numpy',
+            TECH),
 }
 
 NOT_YET = {}
